@@ -68,6 +68,7 @@ func oneRun(o *kit.Out, r *kit.Rand, dir string, idx int, mode, ending, body str
 	var startedN, finishedN atomic.Int64
 	var lastStart atomic.Int64
 	var firstBody atomic.Bool
+	preCancelled := false
 	release := make(chan struct{})
 	var relOnce sync.Once
 	t0 := time.Now()
@@ -124,6 +125,7 @@ func oneRun(o *kit.Out, r *kit.Rand, dir string, idx int, mode, ending, body str
 		opts.MaxDuration = 3 * time.Second
 		if r.Bool() {
 			cancel()
+			preCancelled = true
 		} else {
 			go func() { time.Sleep(time.Duration(r.Range(0, 300)) * time.Microsecond); cancel() }()
 		}
@@ -181,6 +183,12 @@ func oneRun(o *kit.Out, r *kit.Rand, dir string, idx int, mode, ending, body str
 	late := int64(0)
 	if ending == "max-duration" && time.Duration(lastStart.Load()) > opts.MaxDuration+60*time.Millisecond {
 		late = 1
+	}
+	// a run whose context is already cancelled when it begins must not trigger anything (rate triggers
+	// check the context before every request; the continuous pool of users mode is not covered here)
+	if preCancelled && mode != "users" && mode != "file" && startedN.Load() > 0 {
+		late = 1
+		o.Count("cancel-early", "iterations started although cancelled before the run began")
 	}
 	// it returned in time: ending + (timeout or bodies' release) + slack
 	slow := int64(0)
@@ -374,4 +382,40 @@ func TestC05Locks(t *testing.T) {
 	}
 	o.Stat("lock_stress_rounds", rounds)
 	o.Case("c05_ok", []string{"0", "0", "0", "0", "0", kit.Str("result-lock/reporter-vs-run")}, "T", "locks", "nt")
+}
+
+// ---------------------------------------------------------------- a run whose context is cancelled before it begins triggers nothing
+
+func TestC05PreCancelled(t *testing.T) {
+	o := kit.Get()
+	defer o.Close()
+	r := kit.NewRand(kit.Seed() + 55)
+	n := kit.N(120, 1200)
+	worst := int64(0)
+	for i := 0; i < n; i++ {
+		mode := []string{"constant", "staged", "ramp", "gaussian"}[i%4]
+		var started atomic.Int64
+		scenario := func(*f1testing.T) f1testing.RunFn {
+			return func(*f1testing.T) { started.Add(1) }
+		}
+		flags, _ := runkit.QuickMode(mode, r.Intn(6))
+		ctx, cancel := context.WithCancel(context.Background())
+		cancel()
+		out, hung, dump := runkit.DoTimeout(runkit.Config{Mode: mode, Flags: flags, Scenario: scenario, Ctx: ctx,
+			Opts: options.RunOptions{MaxDuration: time.Second, Concurrency: 10, IgnoreDropped: true}}, 30*time.Second)
+		if hung {
+			o.Fail("run-did-not-return", "a run with an already cancelled context did not return: "+dump[:min(len(dump), 2000)])
+			return
+		}
+		if out.Err != nil {
+			o.Fail("run-error", fmt.Sprintf("pre-cancelled run failed: %v", out.Err))
+			return
+		}
+		if started.Load() > worst {
+			worst = started.Load()
+		}
+	}
+	o.Stat("pre_cancelled_runs", n)
+	// c05_ok late_starts unfinished started_after_deadline slow leaked
+	o.Case("c05_ok", []string{"0", "0", kit.I(worst), "0", "0", kit.Str("pre-cancelled/rate-triggers")}, "T", "pre-cancelled", "nt")
 }
